@@ -436,91 +436,85 @@ void CrossProcessCase(Ctx& ctx, int pi) {
   ctx.Note(" -> %s", a.Str().c_str());
 }
 
-// checkpoint / restore
-void CheckpointCase(Ctx& ctx, int pi) {
-  RConfig c = MakeConfig(ctx.rng);
-  int p1 = pi, p2 = (pi + 1 + static_cast<int>(ctx.rng.Below(4))) % 5;
-  ctx.Note("phase1=%s phase2=%s seed=%u freq=%u pick=%u tick=%u casfail=%u inj0=%u: phase 2 replayed alone after "
-           "SetSeed + ForwardToFaultRandomCount + SetInjectorState",
-           kProgramName[p1], kProgramName[p2], c.seed, c.freq, c.pick, c.tick, c.casfail, c.inj0);
-  u64 ck_rand = 0;
+// checkpoint / restore, chained: the original run executes phases 1,2,3 and records checkpoints A (after 1) and B
+// (after 2).  Restored run R1 restores A, replays phase 2 (must equal the original phase 2) and records its own
+// checkpoint B' (must equal B).  Restored run R2 restores B' and replays phase 3 (must equal the original phase 3).
+struct PhaseRec {
+  Record rec;
+  u64 ck_rand = 0;  // random draws since seeding at the end of the phase
   u32 ck_inj = 0;
-  Record full2, alone2;
+};
+
+// runs phases [first, 3] of (p1,p2,p3) in one scheduler; when first > 1 restores (ck_rand, ck_inj) inside the root
+void RunPhases(const RConfig& c, const int* progs, int first, u64 ck_rand, u32 ck_inj, PhaseRec* out) {
+  yaclib::fault::Scheduler sched;
+  yaclib::fault::Scheduler::Set(&sched);
+  Apply(c);
+  u64 r0 = yaclib::fiber::GetFaultRandomCount();
+  g_ft.Reset();
+  g_ft.on = false;
+  bool done = false;
   {
-    yaclib::fault::Scheduler sched;
-    yaclib::fault::Scheduler::Set(&sched);
-    Apply(c);
-    u64 r0 = yaclib::fiber::GetFaultRandomCount();
-    g_ft.Reset();
-    g_ft.on = false;
-    Log log1, log2;
-    bool done = false;
-    {
-      yaclib_std::thread root([&] {
-        kPrograms[p1](log1, 1, c.variant);
-        // quiescent point: every fiber of phase 1 is gone
-        ck_rand = yaclib::fiber::GetFaultRandomCount() - r0;
-        ck_inj = yaclib::fiber::GetInjectorState();
-        u64 i0 = yaclib::GetInjectedCount();
-        u64 rr0 = yaclib::fiber::GetFaultRandomCount();
-        g_ft.Reset();
-        g_ft.on = true;
-        kPrograms[p2](log2, 2, c.variant);
-        g_ft.on = false;
-        full2.rand_delta = yaclib::fiber::GetFaultRandomCount() - rr0;
-        full2.inj_delta = yaclib::GetInjectedCount() - i0;
-        done = true;
-      });
-      if (!done) {
-        ChildExit(77);
-      }
-      root.join();
-    }
-    full2.trace_hash = g_ft.hash;
-    full2.trace_len = g_ft.len;
-    full2.ev_hash = log2.ev_hash;
-    full2.ev_n = log2.n;
-    yaclib::fault::Scheduler::Set(nullptr);
-  }
-  {
-    yaclib::fault::Scheduler sched;
-    yaclib::fault::Scheduler::Set(&sched);
-    Apply(c);
-    Log log2;
-    bool done = false;
-    {
-      yaclib_std::thread root([&] {
-        // restore inside the running program, as a test driver would do before re-running one test: the recorded
-        // count includes the draws the scheduler made to start the root fiber
+    yaclib_std::thread root([&] {
+      if (first > 1) {
         yaclib::SetSeed(c.seed);
+        r0 = yaclib::fiber::GetFaultRandomCount();
         yaclib::fiber::ForwardToFaultRandomCount(ck_rand);
         yaclib::fiber::SetInjectorState(ck_inj);
+      }
+      for (int ph = first; ph <= 3; ++ph) {
+        Log log;
         u64 i0 = yaclib::GetInjectedCount();
         u64 rr0 = yaclib::fiber::GetFaultRandomCount();
         g_ft.Reset();
         g_ft.on = true;
-        kPrograms[p2](log2, 2, c.variant);
+        kPrograms[progs[ph - 1]](log, ph, c.variant);
         g_ft.on = false;
-        alone2.rand_delta = yaclib::fiber::GetFaultRandomCount() - rr0;
-        alone2.inj_delta = yaclib::GetInjectedCount() - i0;
-        done = true;
-      });
-      if (!done) {
-        ChildExit(77);
+        auto& o = out[ph - 1];
+        o.rec.trace_hash = g_ft.hash;
+        o.rec.trace_len = g_ft.len;
+        o.rec.ev_hash = log.ev_hash;
+        o.rec.ev_n = log.n;
+        o.rec.rand_delta = yaclib::fiber::GetFaultRandomCount() - rr0;
+        o.rec.inj_delta = yaclib::GetInjectedCount() - i0;
+        o.ck_rand = yaclib::fiber::GetFaultRandomCount() - r0;
+        o.ck_inj = yaclib::fiber::GetInjectorState();
       }
-      root.join();
+      done = true;
+    });
+    if (!done) {
+      ChildExit(77);
     }
-    alone2.trace_hash = g_ft.hash;
-    alone2.trace_len = g_ft.len;
-    alone2.ev_hash = log2.ev_hash;
-    alone2.ev_n = log2.n;
-    yaclib::fault::Scheduler::Set(nullptr);
+    root.join();
   }
-  ctx.SetNontrivial(full2.trace_len > 20);
-  ctx.Observe(full2.trace_hash);
-  ctx.Check(full2 == alone2, "restore-differs", "C17",
-            "phase 2 after restoring (random count %llu, injector state %u): original [%s] vs restored [%s]",
-            (unsigned long long)ck_rand, ck_inj, full2.Str().c_str(), alone2.Str().c_str());
+  yaclib::fault::Scheduler::Set(nullptr);
+}
+
+void CheckpointCase(Ctx& ctx, int pi) {
+  RConfig c = MakeConfig(ctx.rng);
+  int progs[3] = {pi, (pi + 1 + static_cast<int>(ctx.rng.Below(4))) % 5, static_cast<int>(ctx.rng.Below(5))};
+  ctx.Note("phases=%s,%s,%s seed=%u freq=%u pick=%u tick=%u casfail=%u inj0=%u: restore A -> replay phase 2 + checkpoint B', "
+           "restore B' -> replay phase 3",
+           kProgramName[progs[0]], kProgramName[progs[1]], kProgramName[progs[2]], c.seed, c.freq, c.pick, c.tick, c.casfail,
+           c.inj0);
+  PhaseRec full[3], r1[3], r2[3];
+  RunPhases(c, progs, 1, 0, 0, full);
+  RunPhases(c, progs, 2, full[0].ck_rand, full[0].ck_inj, r1);
+  RunPhases(c, progs, 3, r1[1].ck_rand, r1[1].ck_inj, r2);
+  ctx.SetNontrivial(full[1].rec.trace_len > 20);
+  ctx.Observe(full[1].rec.trace_hash ^ full[2].rec.trace_hash);
+  ctx.Check(full[1].rec == r1[1].rec, "restore-differs", "C17",
+            "phase 2 after restoring checkpoint A (random count %llu, injector state %u): original [%s] vs restored [%s]",
+            (unsigned long long)full[0].ck_rand, full[0].ck_inj, full[1].rec.Str().c_str(), r1[1].rec.Str().c_str());
+  ctx.Check(full[1].ck_rand == r1[1].ck_rand && full[1].ck_inj == r1[1].ck_inj, "restored-checkpoint-differs", "C17",
+            "checkpoint B recorded inside the restored run is (random count %llu, injector %u), the original run recorded "
+            "(%llu, %u)",
+            (unsigned long long)r1[1].ck_rand, r1[1].ck_inj, (unsigned long long)full[1].ck_rand, full[1].ck_inj);
+  ctx.Check(full[2].rec == r1[2].rec, "restore-differs", "C17", "phase 3 continued after the first restore: original [%s] vs [%s]",
+            full[2].rec.Str().c_str(), r1[2].rec.Str().c_str());
+  ctx.Check(full[2].rec == r2[2].rec, "second-restore-differs", "C17",
+            "phase 3 after restoring the checkpoint taken inside a restored run: original [%s] vs restored [%s]",
+            full[2].rec.Str().c_str(), r2[2].rec.Str().c_str());
 }
 
 }  // namespace
